@@ -465,3 +465,20 @@ PROPS["C18"]["drivers"] = PROPS["C18"]["drivers"] + [{"name": "alias", "bin": "v
 PROPS["C18"]["model_files"] = list(dict.fromkeys(PROPS["C18"]["model_files"] + SLICE_MODEL))
 PROPS["C18"]["rule"] = PROPS["C18"]["rule"] + (" || alias (vh_conc, shape shared-persister only): ONE WithFlush persister reused for every request of 2-4 interleaved sessions with different configured languages; "
     "every session's responses, stored session (language included) and calls must equal its solo run")
+
+# C14: asm/menu.go (an anchor of C14) used directly: the menu encoder must not alter selectors
+PROPS["C14"]["drivers"] = PROPS["C14"]["drivers"] + [{"name": "asm", "n_quick": 150, "n_thorough": 1500}]
+PROPS["C14"]["model_files"] = list(dict.fromkeys(PROPS["C14"]["model_files"] + ASM_MODEL))
+PROPS["C14"]["rule"] = PROPS["C14"]["rule"] + (" || asm (menu cases only): 5 corpus + n sequences of 1-4 MenuProcessor.Add calls (DOWN/UP/NEXT/PREVIOUS, selectors from {0,1,00,01,007,010,0000,42,2^32,a,b2,1a,*,x_1,99999999999}) "
+    "followed by ToLines; model AsmModel.menu_proc_add/to_lines; monitor: the bytes decode to MOUT/MNEXT/MPREV..., HALT, INCMP... with the selector bytes exactly as given")
+
+# C17: the interactive driver ends on a refused line; what it leaves behind (Finish, the saved session) is part of "no side effects"
+PROPS["C17"]["drivers"] = PROPS["C17"]["drivers"] + [{"name": "loop", "n_quick": 100, "n_thorough": 800}]
+PROPS["C17"]["model_files"] = list(dict.fromkeys(PROPS["C17"]["model_files"] + LOOP_MODEL))
+PROPS["C17"]["rule"] = PROPS["C17"]["rule"] + " || interactive driver (engine.Loop, see C20): readers with refused lines; the monitor demands that Finish runs exactly once on every exit, the error exit after a refused line included"
+
+# C11: sessions served through ONE reused persister must not see each other's data (persist/persist.go is an anchor)
+PROPS["C11"]["drivers"] = PROPS["C11"]["drivers"] + [{"name": "alias", "bin": "vh_conc", "args": ["-replay", "only:shared-persister"], "env": {"GORACE": "halt_on_error=1 exitcode=66"}, "n_quick": 60, "n_thorough": 600}]
+PROPS["C11"]["model_files"] = list(dict.fromkeys(PROPS["C11"]["model_files"] + SLICE_MODEL))
+PROPS["C11"]["rule"] = PROPS["C11"]["rule"] + (" || alias (vh_conc, shape shared-persister only): ONE WithFlush persister reused for every request of 2-4 interleaved sessions; every session's responses and "
+    "stored session must equal its solo run (applications without LOAD/RELOAD and without entry functions: see K-C11-6)")
